@@ -206,14 +206,14 @@ theorem inv_run {cs : List Chunk} {v : Variant} (hcs : cs ≠ []) : ∀ (acts : 
 theorem inv_init {cs : List Chunk} {fs : FS} (hsafe : SafeFS cs fs) (v : Variant) (hs : HandlerSpec)
     (hv : v ≠ .forked) (hsv : hs.variant ≠ .forked) : Inv cs v (initCfg fs v {} cs hs) := by
   have hshape := shape_saverProg v hv cs
-  have hk : hr (saverProg v {} cs) = 0 := by rw [saverProg_eq]; rfl
+  have hk : hr (saverProg v {} cs) = 0 := by rw [saverProg_eq v hv]; rfl
   constructor
   · exact hshape
   · intro w hw; simp [initCfg] at hw
   · intro _; rfl
   · intro _; exact ⟨rfl, rfl, rfl⟩
   · intro _
-    refine ⟨initItems, saverProg_eq v cs, ?_⟩
+    refine ⟨initItems, saverProg_eq v hv cs, ?_⟩
     intro x hx
     simp only [initItems, flushItems, List.cons_append, List.nil_append, List.mem_cons, List.mem_nil_iff, or_false] at hx
     rcases hx with rfl | rfl | rfl | rfl | rfl | rfl | rfl | rfl | rfl <;> simp [rank]
